@@ -1,6 +1,8 @@
 /-
 Layer B of C01/C13/C09, part 7: the effect on the reference emulator of the bytes rendered for each command, for
-every terminal description in the class `XtermLike` — i.e. `CapsFx` holds for the class.
+every terminal description in the class `XtermLike` — i.e. `CapsFx` holds for the class.  This part: the parameterless
+strings (`sgr0` forms, attribute strings with or without padding, `civis` forms), cursor addressing, and the conjuncts of the
+class predicate by name (`TiFacts`, `DFacts`).
 -/
 import Tcell.Lemmas.LayerBCmd
 import Tcell.Lemmas.Color
@@ -41,11 +43,18 @@ theorem sgr0_10_effect {rw} {t : Term} (g : Good rw t) : t.feed [27, 91, 48, 59,
   simp [sgr, applySgr, reset]
   rw [modes_font _ g.font]
 
+/-- `CSI " q` (DECSCA with the default parameter: characters not protected) changes nothing -/
+theorem decsca_effect {rw} {t : Term} (g : Good rw t) : t.feed [27, 91, 34, 113] = t := by
+  have e : ([27, 91, 34, 113] : List Nat) = csiSeq [34] 0x71 := rfl
+  rw [e, feed_csi t g.st _ _ (by intro b hb; simp at hb; omega) (by omega)]
+  have hp : parseCsiBody [34] = some { priv := 0, params := [[none]], inter := [34] } := by decide
+  simp [dispatchCsi, hp, flat, arg]
+
 theorem attrOff_effect {rw} {t : Term} (g : Good rw t) (s : Bytes) (hs : s ∈ attrOffForms) : t.feed s = reset t := by
   simp only [attrOffForms, List.mem_cons, List.not_mem_nil, or_false] at hs
   have r1 : ∀ {t : Term}, Good rw t → t.feed [27, 91, 109] = reset t := fun g => sgr_reset_effect _ g.st
   have r2 : ∀ {t : Term}, Good rw t → t.feed [27, 91, 48, 109] = reset t := fun g => sgr0_effect _ g.st
-  rcases hs with rfl | rfl | rfl | rfl | rfl | rfl | rfl
+  rcases hs with rfl | rfl | rfl | rfl | rfl | rfl | rfl | rfl | rfl
   · show t.feed ([27, 40, 66] ++ [27, 91, 109]) = _
     rw [← feed_append, escB_effect g, r1 g]
   · show t.feed ([27, 91, 109] ++ [15]) = _
@@ -57,6 +66,10 @@ theorem attrOff_effect {rw} {t : Term} (g : Good rw t) (s : Bytes) (hs : s ∈ a
   · exact r1 g
   · exact r2 g
   · exact sgr0_10_effect g
+  · show t.feed ([27, 91, 48, 59, 49, 48, 109] ++ [27, 40, 66]) = _
+    rw [← feed_append, sgr0_10_effect g, escB_effect (good_reset g)]
+  · show t.feed ([27, 91, 109] ++ ([15] ++ [27, 91, 34, 113])) = _
+    rw [← feed_append, ← feed_append, r1 g, si_effect (good_reset g), decsca_effect (good_reset g)]
 
 /-- a single-digit SGR -/
 theorem sgr1_feed {rw} {t : Term} (g : Good rw t) (n : Nat) (hn : n < 10) : t.feed (sgr1 n) = t.sgr [[some n]] := by
@@ -101,6 +114,23 @@ theorem fgbgReset_effect {rw} {t : Term} (g : Good rw t) :
   have e : t.feed resetStd = (t.sgr [[some 39]]).sgr [[some 49]] := by simpa [resetStd] using h
   rw [e]; simp [sgr, applySgr, sgrSimple, withPen]
 
+/-- the three `op` forms: the pen's colours become `opSel` -/
+theorem opAix_effect {rw} {t : Term} (g : Good rw t) :
+    t.feed opAix = withPen t { t.pen with fg := .idx 2, bg := .idx 0 } := by
+  show t.feed (csiSeq (dec (30 + 2)) 0x6d ++ csiSeq (dec (40 + 0)) 0x6d) = _
+  rw [← feed_append, sgr_fg_idx_effect t g.st 2 (by omega),
+    sgr_bg_idx_effect ({ t with pen := { t.pen with fg := .idx 2 } } : Term) g.st 0 (by omega)]
+  rfl
+
+theorem opPc_effect {rw} {t : Term} (g : Good rw t) :
+    t.feed opPc = withPen t { t.pen with fg := .idx 7, bg := .idx 0 } := by
+  have h := sgr_two_effect t g.st 37 40 (by omega)
+  have d0 : dec 37 = [51, 55] := by decide
+  have d1 : dec 40 = [52, 48] := by decide
+  simp only [csiSeq, d0, d1, List.cons_append, List.nil_append] at h
+  have e : t.feed opPc = (t.sgr [[some 37]]).sgr [[some 40]] := by simpa [opPc] using h
+  rw [e]; simp [sgr, applySgr, sgrSimple, withPen]
+
 theorem hide_effect {rw} {t : Term} (g : Good rw t) :
     t.feed hideStd = { t with modes := { t.modes with cursorVisible := false } } := by
   have := decrst_effect t g.st 25
@@ -114,18 +144,69 @@ theorem urlClose_effect {rw} {t : Term} (g : Good rw t) :
 
 /-! ## the class: what `XtermLike` says, field by field -/
 
-theorem xl_tiOk {ti : Terminfo} (h : XtermLike ti = true) : tiOk ti = true := by
-  simp only [XtermLike, Bool.and_eq_true] at h; exact h.1
+open Tcell.Spec.TermCaps (stripPadding)
 
-theorem xl_cup {ti : Terminfo} (h : XtermLike ti = true) : ti.setCursor = cupStd := by
-  have := xl_tiOk h; simp only [tiOk, Bool.and_eq_true, beq_iff_eq, and_assoc] at this; exact this.1
+theorem opt_of {s std : Bytes} (h : optForm s std = true) : s = [] ∨ s = std := by
+  simpa [optForm] using h
+theorem optSent_of {s std : Bytes} (h : optSent s std = true) : s = [] ∨ stripPadding s = std := by
+  simpa [optSent] using h
 
-theorem xl_hide {ti : Terminfo} (h : XtermLike ti = true) : ti.hideCursor = hideStd := by
-  have := xl_tiOk h; simp only [tiOk, Bool.and_eq_true, beq_iff_eq, and_assoc] at this; exact this.2.2.2.2.1
+/-- the conjuncts of `tiOk`, named -/
+structure TiFacts (ti : Terminfo) : Prop where
+  cup : ∃ p ∈ cupPads, ti.setCursor = cupStd ++ p
+  attrOff : stripPadding ti.attrOff ∈ attrOffForms
+  clear : stripPadding ti.clear ∈ clearForms
+  vis : (stripPadding ti.showCursor ∈ showForms ∧ stripPadding ti.hideCursor ∈ hideForms) ∨ (ti.showCursor = [] ∧ ti.hideCursor = [])
+  underline : stripPadding ti.underline = sgr1 4
+  bold : ti.bold = [] ∨ stripPadding ti.bold = sgr1 1
+  reverse : ti.reverse = [] ∨ stripPadding ti.reverse = sgr1 7
+  blink : ti.blink = [] ∨ stripPadding ti.blink = sgr1 5
+  dim : ti.dim = [] ∨ stripPadding ti.dim = sgr1 2
+  italic : ti.italic = [] ∨ stripPadding ti.italic = sgr1 3
+  strike : ti.strikeThrough = [] ∨ stripPadding ti.strikeThrough = sgr1 9
+  col : ((palKind ti).isSome = true ∧ ti.resetFgBg ∈ opForms) ∨ monoOk ti = true
+  fRGB : ti.setFgRGB = [] ∨ ti.setFgRGB = setfRGB
+  bRGB : ti.setBgRGB = [] ∨ ti.setBgRGB = setbRGB
+  fbRGB : ti.setFgBgRGB = [] ∨ ti.setFgBgRGB = setfbRGB
+  coh1 : ti.setFgRGB.isEmpty = ti.setBgRGB.isEmpty
+  coh2 : ti.setFgBgRGB.isEmpty = true ∨ ti.setFgRGB.isEmpty = false
 
-theorem xl_attrOff {ti : Terminfo} (h : XtermLike ti = true) : ti.attrOff ∈ attrOffForms := by
-  have := xl_tiOk h; simp only [tiOk, Bool.and_eq_true, beq_iff_eq, and_assoc] at this
-  simpa using this.2.1
+theorem xl_tiOk {ti : Terminfo} (h : CapsOk ti = true) : tiCapsOk ti = true := by
+  simp only [CapsOk, Bool.and_eq_true] at h; exact h.1
+
+theorem xl_noCorner {ti : Terminfo} (h : XtermLike ti = true) :
+    (ti.autoMargin && ti.disableAutoMargin.isEmpty && !ti.insertChar.isEmpty) = false := by
+  simp only [XtermLike, tiOk, Bool.and_eq_true] at h; exact (Bool.not_eq_true' _).mp h.1.2
+
+theorem tiFacts {ti : Terminfo} (h : CapsOk ti = true) : TiFacts ti := by
+  have h1 := xl_tiOk h
+  simp only [tiCapsOk, Bool.and_eq_true, and_assoc] at h1
+  obtain ⟨a1, a2, a3, a4, a5, a6, a7, a8, a9, a10, a11, a12, a13, a14, a15, a17, a18⟩ := h1
+  refine ⟨?_, by simpa using a2, by simpa using a3, ?_, by simpa using a5, optSent_of a6, optSent_of a7, optSent_of a8,
+    optSent_of a9, optSent_of a10, optSent_of a11, ?_, opt_of a13, opt_of a14, opt_of a15,
+    by simpa using a17, by simpa using a18⟩
+  · simp only [List.any_eq_true, beq_iff_eq] at a1; exact a1
+  · simp only [Bool.or_eq_true, Bool.and_eq_true, beq_iff_eq, List.contains_eq_mem, decide_eq_true_eq] at a4; exact a4
+  · simp only [Bool.or_eq_true, Bool.and_eq_true, beq_iff_eq, List.contains_eq_mem, decide_eq_true_eq] at a12; exact a12
+
+/-- the conjuncts of `dOk` -/
+structure DFacts (d : Derived) : Prop where
+  url : (d.enterUrl = urlOpen ∧ d.exitUrl = urlClose) ∨ (d.enterUrl = [] ∧ d.exitUrl = [])
+  du : d.doubleUnder = [] ∨ d.doubleUnder = ulStyleStd 2
+  cu : d.curlyUnder = [] ∨ d.curlyUnder = ulStyleStd 3
+  dou : d.dottedUnder = [] ∨ d.dottedUnder = ulStyleStd 4
+  dau : d.dashedUnder = [] ∨ d.dashedUnder = ulStyleStd 5
+  uc : d.underColor = [] ∨ d.underColor = ulIdx
+  urgb : d.underRGB = [] ∨ d.underRGB = ulRGB
+  ufg : d.underFg = [] ∨ d.underFg = ulResetStd
+  cstyles : d.cursorStyles = none ∨ d.cursorStyles = some cursorStylesStd
+  coh : d.underRGB.isEmpty = d.underColor.isEmpty
+
+theorem dFacts {rc : RenderCfg} (hx : CapsOk rc.ti = true) (hd : rc.d = derive rc.ti) : DFacts rc.d := by
+  have h2 : dOk rc.d = true := by rw [hd]; simp only [CapsOk, Bool.and_eq_true] at hx; exact hx.2
+  simp only [dOk, Bool.and_eq_true, Bool.or_eq_true, beq_iff_eq, and_assoc] at h2
+  obtain ⟨b1, b3, b4, b5, b6, b7, b8, b9, b10, b11⟩ := h2
+  exact ⟨b1, opt_of b3, opt_of b4, opt_of b5, opt_of b6, opt_of b7, opt_of b8, opt_of b9, b10, b11⟩
 
 theorem csiSeq_clean (body : List Nat) (final : Nat) (hb : ∀ b ∈ body, b ≠ 36) (hf : final ≠ 36) :
     ∀ b ∈ csiSeq body final, b ≠ 36 := by
@@ -133,14 +214,19 @@ theorem csiSeq_clean (body : List Nat) (final : Nat) (hb : ∀ b ∈ body, b ≠
   simp only [csiSeq, List.mem_append, List.mem_cons, List.mem_singleton, List.not_mem_nil, or_false] at hb'
   rcases hb' with ((h | h) | h) | h <;> first | omega | exact hb b h
 
-/-- **cursor addressing**: `TPuts(TGoto(x, y))` on an `XtermLike` terminal, for every position a Go int can hold -/
-theorem xl_goto_effect {rw} {rc : RenderCfg} (hx : XtermLike rc.ti = true) {t : Term} (g : Good rw t) (x y : Nat)
+/-- **cursor addressing**: `TPuts(TGoto(x, y))` on a terminal of the class (standard `cup`, with or without the padding of
+    the DEC entries), for every position a Go int can hold -/
+theorem xl_goto_effect {rw} {rc : RenderCfg} (hx : CapsOk rc.ti = true) {t : Term} (g : Good rw t) (x y : Nat)
     (hx1 : (x : Int) + 1 < TParm.maxInt64) (hy1 : (y : Int) + 1 < TParm.maxInt64) :
     t.feed (Render.render rc (.goto x y)) =
       { t with cx := min x (t.w - 1), cy := min y (t.h - 1), pendingWrap := false, cursorKnown := true } := by
-  have e : Render.render rc (.goto x y) = tp rc (parm cupStd (ints [(y : Int), (x : Int)])) := by
-    simp only [Render.render, TPuts.tgoto, xl_cup hx]; rfl
-  rw [e, parm_cup y x hy1 hx1, tp_clean]
+  obtain ⟨p, hp, hc⟩ := (tiFacts hx).cup
+  have e : Render.render rc (.goto x y) = tp rc (parm (cupStd ++ p) (ints [(y : Int), (x : Int)])) := by
+    simp only [Render.render, TPuts.tgoto, hc]; rfl
+  have hs : stripPadding p = [] := by
+    simp only [cupPads, List.mem_cons, List.not_mem_nil, or_false] at hp
+    rcases hp with rfl | rfl | rfl <;> decide
+  rw [e, parm_cup_pad p hp y x hy1 hx1, tp_padded rc _ p _ hs]
   · exact cup_effect t g.st y x
   · apply csiSeq_clean
     · intro b hb
@@ -151,52 +237,60 @@ theorem xl_goto_effect {rw} {rc : RenderCfg} (hx : XtermLike rc.ti = true) {t : 
         · exact dec_no_dollar _ b h
     · omega
 
-theorem xl_hide_effect {rw} {rc : RenderCfg} (hx : XtermLike rc.ti = true) {t : Term} (g : Good rw t) :
-    t.feed (Render.render rc .hideCursor) = { t with modes := { t.modes with cursorVisible := false } } := by
-  have e : Render.render rc .hideCursor = hideStd := by
-    simp only [Render.render, xl_hide hx]; exact tp_clean rc _ (by decide)
-  rw [e]; exact hide_effect g
+/-- the linux console's `CSI ? n c` only records the console cursor setting -/
+theorem linuxCursor_effect {rw} {t : Term} (g : Good rw t) (n : Nat) (hn : n < 2) :
+    t.feed (csiSeq [0x3f, 48 + n] 0x63) = { t with modes := { t.modes with linuxCursor := [n] } } := by
+  rw [feed_csi t g.st _ _ (by intro b hb; simp at hb; omega) (by omega)]
+  have hp : parseCsiBody [0x3f, 48 + n] = some { priv := 0x3f, params := [[some n]], inter := [] } := by
+    have : n = 0 ∨ n = 1 := by omega
+    rcases this with rfl | rfl <;> decide
+  simp [dispatchCsi, hp, flat]
 
-/-- **attributes off** (`sgr0`) in any of the seven forms of the class = SGR reset -/
-theorem xl_attrOff_effect {rw} {rc : RenderCfg} (hx : XtermLike rc.ti = true) {t : Term} (g : Good rw t) :
+/-- the two `civis` forms: DECTCEM off; the linux console's `CSI ? 1 c` only records the console cursor setting -/
+theorem hideForm_effect {rw} {t : Term} (g : Good rw t) (s : Bytes) (hs : s ∈ hideForms) :
+    ∃ m', t.feed s = { t with modes := m' } ∧ ModesOk t.modes m' ∧ m'.cursorVisible = false ∧
+      m'.cursorShape = t.modes.cursorShape := by
+  simp only [hideForms, List.mem_cons, List.not_mem_nil, or_false] at hs
+  rcases hs with rfl | rfl
+  · exact ⟨_, hide_effect g, ⟨rfl, rfl, rfl, rfl, rfl⟩, rfl, rfl⟩
+  · refine ⟨{ t.modes with cursorVisible := false, linuxCursor := [1] }, ?_, ⟨rfl, rfl, rfl, rfl, rfl⟩, rfl, rfl⟩
+    show t.feed (hideStd ++ csiSeq [0x3f, 48 + 1] 0x63) = _
+    rw [← feed_append, hide_effect g, linuxCursor_effect (t := { t with modes := { t.modes with cursorVisible := false } })
+      (good_of_eq g rfl rfl ⟨rfl, rfl, rfl, rfl, rfl⟩ rfl) 1 (by omega)]
+
+theorem xl_hide_effect {rw} {rc : RenderCfg} (hx : CapsOk rc.ti = true) {t : Term} (g : Good rw t)
+    (hne : rc.ti.hideCursor ≠ []) :
+    ∃ m', t.feed (Render.render rc .hideCursor) = { t with modes := m' } ∧ ModesOk t.modes m' ∧ m'.cursorVisible = false ∧
+      m'.cursorShape = t.modes.cursorShape := by
+  rcases (tiFacts hx).vis with h | h
+  · have e : Render.render rc .hideCursor = stripPadding rc.ti.hideCursor := by simp only [Render.render]; exact tp_strip rc _
+    rw [e]; exact hideForm_effect g _ h.2
+  · exact absurd h.2 hne
+
+/-- **attributes off** (`sgr0`) in any of the forms of the class = SGR reset -/
+theorem xl_attrOff_effect {rw} {rc : RenderCfg} (hx : CapsOk rc.ti = true) {t : Term} (g : Good rw t) :
     t.feed (tp rc rc.ti.attrOff) = reset t := by
-  have hm := xl_attrOff hx
-  have hc : tp rc rc.ti.attrOff = rc.ti.attrOff := by
-    apply tp_clean
-    revert hm; generalize rc.ti.attrOff = s; intro hm
-    simp only [attrOffForms, List.mem_cons, List.not_mem_nil, or_false] at hm
-    rcases hm with rfl | rfl | rfl | rfl | rfl | rfl | rfl <;> decide
-  rw [hc]; exact attrOff_effect g _ hm
+  rw [tp_strip]; exact attrOff_effect g _ (tiFacts hx).attrOff
 
-/-! ## the style block for styles without colours and underline (milestones a + c) -/
+/-! ## optional attribute strings -/
 
 theorem isRGB_of_invalid (c : Nat) (h : Color.valid c = false) : Color.isRGB c = false := by
   rw [Color.isRGB_eq]; rw [Color.valid_eq] at h; simp [h]
 
-/-- colours that make `sendFgBg` write nothing: not valid (e.g. `ColorDefault`) and not `ColorReset` -/
-def NoColor (c : Nat) : Prop := Color.valid c = false ∧ c ≠ colorReset
-
-theorem sendFgBg_none (rc : RenderCfg) (hcol : rc.ti.colors ≠ 0) (fg bg attrs : Nat) (hf : NoColor fg) (hb : NoColor bg) :
-    Render.sendFgBg rc fg bg attrs = ([], attrs) := by
-  have e1 := isRGB_of_invalid fg hf.1
-  have e2 := isRGB_of_invalid bg hb.1
-  simp [Render.sendFgBg, hcol, hf.1, hb.1, hf.2, hb.2, e1, e2]
-
-theorem opt_piece {rw} {rc : RenderCfg} {t : Term} (g : Good rw t) (b : Bool) (s std : Bytes) (ho : s = [] ∨ s = std)
-    (hstd : ∀ x ∈ std, x ≠ 36) (f : Pen → Pen) (heff : ∀ {t : Term}, Good rw t → t.feed std = withPen t (f t.pen)) :
+/-- an attribute string that is absent or (padding removed) the standard form `std` with effect `f` on the pen -/
+theorem opt_piece {rw} {rc : RenderCfg} {t : Term} (g : Good rw t) (b : Bool) (s std : Bytes) (ho : s = [] ∨ stripPadding s = std)
+    (hstd : std ≠ []) (f : Pen → Pen) (heff : ∀ {t : Term}, Good rw t → t.feed std = withPen t (f t.pen)) :
     t.feed (if b then tp rc s else []) = withPen t (if (b && !s.isEmpty) = true then f t.pen else t.pen) := by
   cases b
   · simp [withPen]
-  · rcases ho with rfl | rfl
+  · rcases ho with rfl | h
     · simp [withPen]
-    · simp only [if_true, tp_clean rc _ hstd, Bool.true_and]
+    · simp only [if_true, tp_strip, h, Bool.true_and]
       cases hs : s.isEmpty
       · simp [heff g]
       · have : s = [] := by simpa using hs
-        subst this; simp [withPen]
-
-theorem opt_of {s std : Bytes} (h : optForm s std = true) : s = [] ∨ s = std := by
-  simpa [optForm] using h
+        subst this
+        exact absurd h.symm hstd
 
 theorem ite_bold (c : Bool) (p : Pen) : (if c = true then ({ p with bold := true } : Pen) else p) = { p with bold := p.bold || c } := by
   cases c <;> cases p <;> simp
@@ -210,90 +304,5 @@ theorem ite_italic (c : Bool) (p : Pen) : (if c = true then ({ p with italic := 
   cases c <;> cases p <;> simp
 theorem ite_strike (c : Bool) (p : Pen) : (if c = true then ({ p with strike := true } : Pen) else p) = { p with strike := p.strike || c } := by
   cases c <;> cases p <;> simp
-
-/-- facts of the class used below -/
-structure XL (rc : RenderCfg) : Prop where
-  colors : rc.ti.colors ≠ 0
-  bold : rc.ti.bold = sgr1 1
-  reverse : rc.ti.reverse = sgr1 7
-  blink : rc.ti.blink = [] ∨ rc.ti.blink = sgr1 5
-  dim : rc.ti.dim = [] ∨ rc.ti.dim = sgr1 2
-  italic : rc.ti.italic = [] ∨ rc.ti.italic = sgr1 3
-  strike : rc.ti.strikeThrough = [] ∨ rc.ti.strikeThrough = sgr1 9
-  enterUrl : rc.d.enterUrl = urlOpen
-  exitUrl : rc.d.exitUrl = urlClose
-
-theorem xl_facts {rc : RenderCfg} (hx : XtermLike rc.ti = true) (hd : rc.d = derive rc.ti) : XL rc := by
-  have h1 := xl_tiOk hx
-  have h2 : dOk rc.d = true := by rw [hd]; simp only [XtermLike, Bool.and_eq_true] at hx; exact hx.2
-  simp only [tiOk, Bool.and_eq_true, beq_iff_eq, and_assoc] at h1
-  obtain ⟨_, _, _, _, _, _, a7, a8, a9, a10, a11, a12, a13, _⟩ := h1
-  simp only [dOk, Bool.and_eq_true, beq_iff_eq, and_assoc] at h2
-  obtain ⟨b1, b2, _⟩ := h2
-  refine ⟨?_, a7, a8, opt_of a9, opt_of a10, opt_of a11, opt_of a12, b1, b2⟩
-  intro h0
-  simp only [Bool.or_eq_true, Bool.and_eq_true, beq_iff_eq, decide_eq_true_eq] at a13
-  rcases a13 with h | h
-  · simp [h0] at h
-  · simp [h0] at h
-
-/-- **the whole style block of drawCell**, for every `XtermLike` terminal and every style without colours, underline
-and hyperlink (any combination of bold / blink / reverse / dim / italic / strike-through): the emulator's pen becomes
-exactly `penOf rc s`, pen and hyperlink state are known afterwards, nothing else changes.  (Superseded by
-`xl_setPen_effect` in `LayerBXtermFx.lean`, which covers colours and underline as well; kept as the simple special case.) -/
-theorem xl_setPen_attrs_effect {rw} {rc : RenderCfg} (hx : XtermLike rc.ti = true) (hd : rc.d = derive rc.ti) {t : Term}
-    (g : Good rw t) (s : Style) (hf : NoColor s.fg) (hb : NoColor s.bg) (hu : s.ulStyle = 0) (hurl : s.url = "") :
-    t.feed (Render.render rc (.setPen s)) = { t with pen := penOf rc s, penKnown := true, linkKnown := true } := by
-  have X := xl_facts hx hd
-  have hne : (!rc.d.enterUrl.isEmpty) = true := by rw [X.enterUrl]; decide
-  have e : Render.render rc (.setPen s) =
-      tp rc rc.ti.attrOff ++ (if bit s.attrs Render.attrBold then tp rc rc.ti.bold else []) ++
-      (if bit s.attrs Render.attrReverse then tp rc rc.ti.reverse else []) ++
-      (if bit s.attrs Render.attrBlink then tp rc rc.ti.blink else []) ++
-      (if bit s.attrs Render.attrDim then tp rc rc.ti.dim else []) ++
-      (if bit s.attrs Render.attrItalic then tp rc rc.ti.italic else []) ++
-      (if bit s.attrs Render.attrStrike then tp rc rc.ti.strikeThrough else []) ++ urlClose := by
-    simp only [Render.render, Render.setPen, sendFgBg_none rc X.colors _ _ _ hf hb, Render.underline, hu, hne, hurl, X.exitUrl,
-      bit, if_true, List.append_nil, ne_eq, not_true_eq_false, if_false, tp_clean rc urlClose (by decide), decide_eq_true_eq]
-  rw [e]
-  simp only [← feed_append]
-  rw [xl_attrOff_effect hx g]
-  have g0 := good_reset g
-  rw [opt_piece g0 _ _ (sgr1 1) (Or.inr X.bold) (by decide) (fun p => { p with bold := true }) bold_effect]
-  generalize hp1 : (if (bit s.attrs Render.attrBold && !rc.ti.bold.isEmpty) = true then
-    ({ (reset t).pen with bold := true } : Pen) else (reset t).pen) = p1
-  have g1 := good_withPen g0 p1
-  rw [opt_piece g1 _ _ (sgr1 7) (Or.inr X.reverse) (by decide) (fun p => { p with reverse := true }) reverse_effect]
-  generalize hp2 : (if (bit s.attrs Render.attrReverse && !rc.ti.reverse.isEmpty) = true then
-    ({ (withPen (reset t) p1).pen with reverse := true } : Pen) else (withPen (reset t) p1).pen) = p2
-  have g2 := good_withPen g1 p2
-  rw [opt_piece g2 _ _ (sgr1 5) X.blink (by decide) (fun p => { p with blink := true }) blink_effect]
-  generalize hp3 : (if (bit s.attrs Render.attrBlink && !rc.ti.blink.isEmpty) = true then
-    ({ (withPen (withPen (reset t) p1) p2).pen with blink := true } : Pen) else (withPen (withPen (reset t) p1) p2).pen) = p3
-  have g3 := good_withPen g2 p3
-  rw [opt_piece g3 _ _ (sgr1 2) X.dim (by decide) (fun p => { p with dim := true }) dim_effect]
-  generalize hp4 : (if (bit s.attrs Render.attrDim && !rc.ti.dim.isEmpty) = true then
-    ({ (withPen (withPen (withPen (reset t) p1) p2) p3).pen with dim := true } : Pen)
-    else (withPen (withPen (withPen (reset t) p1) p2) p3).pen) = p4
-  have g4 := good_withPen g3 p4
-  rw [opt_piece g4 _ _ (sgr1 3) X.italic (by decide) (fun p => { p with italic := true }) italic_effect]
-  generalize hp5 : (if (bit s.attrs Render.attrItalic && !rc.ti.italic.isEmpty) = true then
-    ({ (withPen (withPen (withPen (withPen (reset t) p1) p2) p3) p4).pen with italic := true } : Pen)
-    else (withPen (withPen (withPen (withPen (reset t) p1) p2) p3) p4).pen) = p5
-  have g5 := good_withPen g4 p5
-  rw [opt_piece g5 _ _ (sgr1 9) X.strike (by decide) (fun p => { p with strike := true }) strike_effect]
-  generalize hp6 : (if (bit s.attrs Render.attrStrike && !rc.ti.strikeThrough.isEmpty) = true then
-    ({ (withPen (withPen (withPen (withPen (withPen (reset t) p1) p2) p3) p4) p5).pen with strike := true } : Pen)
-    else (withPen (withPen (withPen (withPen (withPen (reset t) p1) p2) p3) p4) p5).pen) = p6
-  have g6 := good_withPen g5 p6
-  rw [urlClose_effect g6]
-  subst hp6; subst hp5; subst hp4; subst hp3; subst hp2; subst hp1
-  -- the pen
-  have c1 : colSel rc s.fg = .default := by simp [colSel, hf.1, isRGB_of_invalid _ hf.1]
-  have c2 : colSel rc s.bg = .default := by simp [colSel, hb.1, isRGB_of_invalid _ hb.1]
-  have hb1 : rc.ti.bold.isEmpty = false := by rw [X.bold]; decide
-  have hb7 : rc.ti.reverse.isEmpty = false := by rw [X.reverse]; decide
-  simp only [ite_bold, ite_reverse, ite_blink, ite_dim, ite_italic, ite_strike]
-  simp [withPen, reset, penOf, c1, c2, hu, ulStyleOf, hurl, hb1, hb7]
 
 end Tcell.LayerB
